@@ -118,6 +118,16 @@ func (ex *Exec) callValue(fr *Frame, st *State, cc *ssa.CallCommon, fv Val, args
 			return ex.builtin(fr, st, strings.TrimPrefix(f.Sym.S, "builtin_"), args, cc, rt, pos)
 		}
 	}
+	// a direct call of a function-typed PARAMETER of the function being executed is an assert site "@call:<name>"
+	if pn := paramNameOfValue(fr.fn, cc.Value); pn != "" {
+		var names []string
+		var ptypes []types.Type
+		for i := 0; i < sig.Params().Len(); i++ {
+			names = append(names, fmt.Sprintf("p%d", i))
+			ptypes = append(ptypes, sig.Params().At(i).Type())
+		}
+		ex.checkAsserts(fr, st, "call:"+pn, names, ptypes, args, pos)
+	}
 	// function-typed value not known on this path: a contract may be given for its NAMED function type
 	// ("extern funcvalue:context.CancelFunc"): what every value of that type is assumed to do when called
 	if nt, ok := cc.Value.Type().(*types.Named); ok && nt.Obj() != nil && nt.Obj().Pkg() != nil {
@@ -1042,4 +1052,23 @@ func bareKey(k string) string {
 		// keep the method separator: only qualifiers followed by an identifier start are dropped
 		return ""
 	})
+}
+
+// paramNameOfValue: v is (a load of the cell of) a parameter of fn - its name, else "".
+func paramNameOfValue(fn *ssa.Function, v ssa.Value) string {
+	switch x := v.(type) {
+	case *ssa.Parameter:
+		return x.Name()
+	case *ssa.UnOp:
+		if x.Op == token.MUL {
+			if a, ok := x.X.(*ssa.Alloc); ok {
+				for _, p := range fn.Params {
+					if p.Name() == a.Comment {
+						return p.Name()
+					}
+				}
+			}
+		}
+	}
+	return ""
 }
